@@ -1,0 +1,62 @@
+//go:build verif
+
+package kcache
+
+import (
+	"context"
+
+	logutil "github.com/boz/go-logutil"
+	"github.com/boz/kcache/filter"
+	metav1 "k8s.io/apimachinery/pkg/apis/meta/v1"
+)
+
+// VerifTrace, when set (before any kcache object is created), receives one call
+// per instrumented step, from the goroutine that owns the state, after the
+// state change and before it is made visible to other goroutines.
+var VerifTrace func(actor interface{}, event string, args ...interface{})
+
+func verifTrace(actor interface{}, event string, args ...interface{}) {
+	if fn := VerifTrace; fn != nil {
+		fn(actor, event, args...)
+	}
+}
+
+// VerifCache exposes the unexported cache actor to an external harness.
+type VerifCache struct{ c cache }
+
+func VerifNewCache(ctx context.Context, log logutil.Log, stopch <-chan struct{}, f filter.Filter) VerifCache {
+	return VerifCache{newCache(ctx, log, stopch, f)}
+}
+
+func (v VerifCache) Reader() CacheReader                     { return v.c }
+func (v VerifCache) Actor() interface{}                      { return v.c }
+func (v VerifCache) Sync(l []metav1.Object) ([]Event, error) { return v.c.sync(l) }
+func (v VerifCache) Update(e Event) ([]Event, error)         { return v.c.update(e) }
+func (v VerifCache) Refilter(l []metav1.Object, f filter.Filter) ([]Event, error) {
+	return v.c.refilter(l, f)
+}
+func (v VerifCache) List() ([]metav1.Object, error)             { return v.c.List() }
+func (v VerifCache) Get(ns, name string) (metav1.Object, error) { return v.c.Get(ns, name) }
+func (v VerifCache) Done() <-chan struct{}                      { return v.c.Done() }
+func (v VerifCache) Error() error                               { return v.c.Error() }
+
+// VerifSubscription exposes the unexported send side of a subscription.
+type VerifSubscription struct{ Subscription }
+
+func (v VerifSubscription) Send(e Event) error { return v.Subscription.(subscription).send(e) }
+
+func VerifNewSubscription(log logutil.Log, stopch <-chan struct{}, readych <-chan struct{}, cache CacheReader) VerifSubscription {
+	return VerifSubscription{newSubscription(log, stopch, readych, cache)}
+}
+
+func VerifNewPublisher(log logutil.Log, parent Subscription) Controller {
+	return newPublisher(log, parent)
+}
+
+func VerifNewFilterSubscription(log logutil.Log, parent Subscription, f filter.Filter, deferReady bool) FilterSubscription {
+	return newFilterSubscription(log, parent, f, deferReady)
+}
+
+func VerifNewFilterPublisher(log logutil.Log, sub FilterSubscription) FilterController {
+	return newFilterPublisher(log, sub)
+}
